@@ -132,6 +132,9 @@ func newEngine(repo, specDir string, patterns []string) (*Engine, error) {
 	}
 	for _, cf := range e.files {
 		for _, inv := range cf.Invariants {
+			if prev, dup := e.invariants[inv.Name]; dup && prev != inv {
+				return nil, fmt.Errorf("duplicate invariant name %s (invariant names are global)", inv.Name)
+			}
 			e.invariants[inv.Name] = inv
 		}
 	}
